@@ -26,6 +26,14 @@ struct Case {
     expect: Vec<String>,
 }
 
+/// A value that is not text but renders as it (a `Display` capture).
+struct Shown(&'static str);
+impl std::fmt::Display for Shown {
+    fn fmt(&self, f: &mut std::fmt::Formatter) -> std::fmt::Result {
+        f.write_str(self.0)
+    }
+}
+
 fn emit_case(otlp: &emit_otlp::Otlp, c: &Case, vid: i64) {
     let kind_typed_span = emit::Kind::Span;
     let kind_typed_metric = emit::Kind::Metric;
@@ -34,8 +42,14 @@ fn emit_case(otlp: &emit_otlp::Otlp, c: &Case, vid: i64) {
     let empty: Vec<i64> = vec![];
     let nested: Vec<Vec<i64>> = vec![vec![1], vec![2]];
     let textseq: Vec<&'static str> = vec!["a", "b"];
-    let mut props: Vec<(&str, emit::Value)> = vec![("vid", emit::Value::from(vid)), ("metric_name", emit::Value::from("m"))];
     use emit::value::ToValue;
+    let owned_typed_span = emit::Kind::Span.to_value().to_owned();
+    let owned_typed_metric = emit::Kind::Metric.to_value().to_owned();
+    let owned_str_span = emit::Value::from("span").to_owned();
+    let owned_str_metric = emit::Value::from("metric").to_owned();
+    let (disp_span, disp_metric) = (Shown("span"), Shown("metric"));
+    let (string_span, string_metric) = (String::from("span"), String::from("metric"));
+    let mut props: Vec<(&str, emit::Value)> = vec![("vid", emit::Value::from(vid)), ("metric_name", emit::Value::from("m"))];
     match &c.kind[..] {
         "absent" => {}
         "span" => props.push(("evt_kind", emit::Value::from("span"))),
@@ -46,6 +60,17 @@ fn emit_case(otlp: &emit_otlp::Otlp, c: &Case, vid: i64) {
         "int" => props.push(("evt_kind", emit::Value::from(1i64))),
         "typedSpan" => props.push(("evt_kind", kind_typed_span.to_value())),
         "typedMetric" => props.push(("evt_kind", kind_typed_metric.to_value())),
+        // the same kinds in other value forms
+        "spanTypedOwned" => props.push(("evt_kind", owned_typed_span.by_ref())),
+        "metricTypedOwned" => props.push(("evt_kind", owned_typed_metric.by_ref())),
+        "spanStrOwned" => props.push(("evt_kind", owned_str_span.by_ref())),
+        "metricStrOwned" => props.push(("evt_kind", owned_str_metric.by_ref())),
+        "spanDisplay" => props.push(("evt_kind", emit::Value::capture_display(&disp_span))),
+        "metricDisplay" => props.push(("evt_kind", emit::Value::capture_display(&disp_metric))),
+        "spanFromDisplay" => props.push(("evt_kind", emit::Value::from_display(&disp_span))),
+        "metricFromDisplay" => props.push(("evt_kind", emit::Value::from_display(&disp_metric))),
+        "spanString" => props.push(("evt_kind", emit::Value::capture_display(&string_span))),
+        "metricString" => props.push(("evt_kind", emit::Value::capture_display(&string_metric))),
         k => tool_error(&format!("unknown kind {k}")),
     }
     match &c.val[..] {
